@@ -208,6 +208,7 @@ def run(ctx):
     specs += [builder.gen_case(ctx.rng('nested-ctx', i), ctx_kind='uses', wellformed=True) for i in range(ctx.n(60, 600))]     # contexts using contexts
     specs += [builder.gen_case(ctx.rng('conflict', i), conflict=True) for i in range(ctx.n(30, 400))]
     specs += [builder.gen_case(ctx.rng('mal', i), malformed=True) for i in range(ctx.n(30, 400))]
+    specs += [builder.gen_exclusion_case(ctx.rng('exclusion', i)) for i in range(ctx.n(20, 200))]     # an exclusion is the declaring config's alone
     reqs = [builder.encode(spec, pl.Built(root / f'c{i}', spec['module'], spec)) for i, spec in enumerate(specs)]
     outs = ctx.model.many(reqs)
     for i, (spec, mo) in enumerate(zip(specs, outs)):
